@@ -244,6 +244,13 @@ bool File::copy(const String& src, const String& destination, bool failIfExists)
       errno = S_ISDIR(srcStat.st_mode) ? EISDIR : EINVAL;
       return false;
     }
+    struct stat destStat;
+    if(::stat(destination, &destStat) == 0 && destStat.st_dev == srcStat.st_dev && destStat.st_ino == srcStat.st_ino)
+    { // source and destination are the same file
+      ::close(fd);
+      errno = EINVAL;
+      return false;
+    }
     off64_t size = lseek(fd, 0, SEEK_END);
     if(size < 0 || lseek(fd, 0, SEEK_SET) < 0)
     {
